@@ -258,7 +258,7 @@ class Unit:
                     buf = []
                 elif first == 'ghost_at':
                     # ghost_at <callee>[#k] before|after : ghost statements next to the k-th statement calling <callee>
-                    m = re.match(r'([\w:.]+)(?:#(\d+))?\s+(before|after|blockend)$', rest)
+                    m = re.match(r'("[^"]+"|[\w:.]+)(?:#(\d+))?\s+(before|after|blockend)$', rest)
                     if not m:
                         raise ExtractError('%s:%d: bad ghost_at line' % (self.path, i))
                     section = ('ghost_at', (m.group(1), int(m.group(2) or 1), m.group(3)))
@@ -553,18 +553,40 @@ class Emitter:
             edits.append((1, '\n' + mark(contract.ghost_begin, fnid + '::proof')))
         for (callee, ordinal, where), gtxt in contract.ghost_at.items():
             # the statement that contains the k-th call of `callee` at the top level of this body (not in a nested fn)
-            hits = [m for m in re.finditer(r'(?<![\w:.])' + re.escape(callee) + r'\s*\(', masked)
-                    if not any(a <= m.start() < b for a, b, _ in nested_spans)]
-            if ordinal > len(hits):
-                raise ExtractError('%s: ghost_at %s#%d: call not found (anchor lost)' % (fnid, callee, ordinal))
-            m = hits[ordinal - 1]
-            par_close = match_close(masked, m.end() - 1)
-            semi = masked.find(';', par_close)
-            if semi < 0 or masked[par_close + 1:semi].strip():
-                raise ExtractError('%s: ghost_at %s#%d: the call is not a statement of its own (anchor lost)' % (fnid, callee, ordinal))
-            start = masked.rfind('\n', 0, m.start()) + 1
-            if masked[start:m.start()].strip():
-                raise ExtractError('%s: ghost_at %s#%d: the call does not start its statement (anchor lost)' % (fnid, callee, ordinal))
+            if callee.startswith('"'):
+                # literal anchor: the k-th statement whose text contains the quoted fragment (e.g. "SUBI(STACK, SPILL_SPACE")
+                frag = callee[1:-1]
+                hits = [m for m in re.finditer(re.escape(frag), masked) if not any(a <= m.start() < b for a, b, _ in nested_spans)]
+                if ordinal > len(hits):
+                    raise ExtractError('%s: ghost_at %s#%d: fragment not found (anchor lost)' % (fnid, callee, ordinal))
+                m = hits[ordinal - 1]
+                start = masked.rfind('\n', 0, m.start()) + 1
+                depth, k3, semi = 0, start, -1
+                while k3 < len(masked):
+                    ch = masked[k3]
+                    if ch in '([{':
+                        depth += 1
+                    elif ch in ')]}':
+                        depth -= 1
+                    elif ch == ';' and depth == 0:
+                        semi = k3
+                        break
+                    k3 += 1
+                if semi < 0:
+                    raise ExtractError('%s: ghost_at %s#%d: end of statement not found (anchor lost)' % (fnid, callee, ordinal))
+            else:
+                hits = [m for m in re.finditer(r'(?<![\w:.])' + re.escape(callee) + r'\s*\(', masked)
+                        if not any(a <= m.start() < b for a, b, _ in nested_spans)]
+                if ordinal > len(hits):
+                    raise ExtractError('%s: ghost_at %s#%d: call not found (anchor lost)' % (fnid, callee, ordinal))
+                m = hits[ordinal - 1]
+                par_close = match_close(masked, m.end() - 1)
+                semi = masked.find(';', par_close)
+                if semi < 0 or masked[par_close + 1:semi].strip():
+                    raise ExtractError('%s: ghost_at %s#%d: the call is not a statement of its own (anchor lost)' % (fnid, callee, ordinal))
+                start = masked.rfind('\n', 0, m.start()) + 1
+                if masked[start:m.start()].strip():
+                    raise ExtractError('%s: ghost_at %s#%d: the call does not start its statement (anchor lost)' % (fnid, callee, ordinal))
             if where == 'after':
                 edits.append((semi + 1, '\n' + mark(gtxt, fnid + '::proof')))
             elif where == 'blockend':
